@@ -209,7 +209,7 @@ class Skin(Controller):
             bind_shape_mat.shape = (-1,)
         else:
             try:
-                values = [float(v) for v in bind_shape_mat.text.split()]
+                values = [float(v) for v in (bind_shape_mat.text or '').split()]
             except ValueError:
                 raise DaeMalformedError('Corrupted bind shape matrix in skin')
             bind_shape_mat = numpy.array(values, dtype=numpy.float32)
@@ -219,7 +219,7 @@ class Skin(Controller):
             raise DaeIncompleteError("Not enough inputs in skin joints")
 
         try:
-            inputs = [(i.get('semantic'), i.get('source')) for i in inputnodes]
+            inputs = [(i.get('semantic'), i.get('source') or '') for i in inputnodes]
         except ValueError:
             raise DaeMalformedError('Corrupted inputs in skin')
 
@@ -249,9 +249,9 @@ class Skin(Controller):
                                  for v in (indexnode.text or '').split()], dtype=numpy.int32)
             vcounts = numpy.array([int(v)
                                    for v in (vcountnode.text or '').split()], dtype=numpy.int32)
-            inputs = [(i.get('semantic'), i.get('source'), int(i.get('offset')))
+            inputs = [(i.get('semantic'), i.get('source') or '', int(i.get('offset')))
                       for i in inputnodes]
-        except ValueError:
+        except (TypeError, ValueError):
             raise DaeMalformedError('Corrupted index or offsets in skin vertex weights')
 
         weight_joint_source = None
@@ -360,7 +360,7 @@ class Morph(Controller):
 
     @staticmethod
     def load(collada, localscope, morphnode, controllernode):
-        baseid = morphnode.get('source')
+        baseid = morphnode.get('source') or ''
         if len(baseid) < 2 or baseid[0] != '#' or \
                 not baseid[1:] in collada.geometries:
             raise DaeBrokenRefError('Base source of morph %s not found' % baseid)
@@ -377,7 +377,7 @@ class Morph(Controller):
             raise DaeIncompleteError("Not enough inputs in a morph")
 
         try:
-            inputs = [(i.get('semantic'), i.get('source')) for i in inputnodes]
+            inputs = [(i.get('semantic'), i.get('source') or '') for i in inputnodes]
         except ValueError:
             raise DaeMalformedError('Corrupted inputs in morph')
 
